@@ -150,6 +150,23 @@ def programs(tier: str):
                                 b["child"] = blk
                             blk = b
                         yield {"outer": False, "block": blk, "cancels": cancels, "deep": depth}
+    # tasks spawned from callables that are not plain coroutine functions
+    for form in ("object", "lambda", "partial", "wrapped"):
+        for i in (1, 3):
+            for ending, cancels in (("return", 0), ("raise", 0), ("return", 1)):
+                p = _prog((i,), ending, cancels, False)
+                p["block"]["spawns"][0]["callable"] = form
+                yield p
+    # MANY spawned tasks (4, 5, 6, 9): all of one simple kind, or one of them different
+    for k in (4, 5, 6, 9) if tier == "quick" else (4, 5, 6, 9, 12):
+        for base, odd in ((1, None), (1, 3), (0, 1), (1, 0)):
+            for ending in ("return", "raise"):
+                combo = [base] * k
+                if odd is not None:
+                    combo[-1] = odd
+                p = _prog(tuple(combo), ending, 0, False)
+                p["many"] = k
+                yield p
     extra_k = kmax + 1
     pool = [0, 1, 3, 4, 5] if tier == "quick" else [1, 2, 4, 5]
     for combo in itertools.combinations_with_replacement(pool, extra_k):
@@ -159,7 +176,14 @@ def programs(tier: str):
             yield _prog(combo, ending, 0, False)
 
 
+DECLARED_DEVIATION_BOUND = {"quick": 2, "thorough": 3}  # for the MANY-spawned-tasks family only
+
+
 def explore_config(tier: str, program) -> dict:
+    if program.get("many"):
+        # 4..12 blocked tasks: every release order is factorial; all schedules with at most 2 (3)
+        # non-default choices are explored
+        return {"cap": 400000, "bound": DECLARED_DEVIATION_BOUND[tier]}
     return {"cap": 400000}
 
 
